@@ -179,6 +179,16 @@ class World:
         self.record(dict(op="add_server", m=m, sv=sv, id=mid), res, code,
                     what="mgr(%r).add_server(server %d)" % (mid, sv))
 
+    @staticmethod
+    def _safe(getter, sid):
+        """get_*() for the driver's own bookkeeping; a manager left half
+        deregistered by a failed remove_server() (the failure itself is judged
+        at that event) raises KeyError here"""
+        try:
+            return getter(sid)
+        except Exception:  # noqa
+            return []
+
     def _paths(self, sv, cls, name):
         for i in self.store(sv):
             if i.classname.lower() == cls.lower() and i["Name"] == name:
@@ -193,7 +203,8 @@ class World:
             kw["destination_id"] = None if badargs else xid
         else:
             kw["name"] = None if badargs else name
-        before = set(x["Name"] for x in mgr.get_owned_destinations(sid))
+        before = set(x["Name"] for x in self._safe(mgr.get_owned_destinations,
+                                                   sid))
         try:
             inst = mgr.add_destination(sid, URLS[url], **kw)
             expect = "pywbemdestination:%s:%s" % (mid, xid) if owned else name
@@ -234,7 +245,8 @@ class World:
         dp = self._paths(sv, "CIM_ListenerDestinationCIMXML", dname)
         if fp is None or dp is None:
             return
-        before = set(str(x.path) for x in mgr.get_owned_subscriptions(sid))
+        before = set(str(x.path) for x in
+                     self._safe(mgr.get_owned_subscriptions, sid))
         try:
             insts = mgr.add_subscriptions(sid, fp, dp, owned=owned)
             res = "existing" if owned and str(insts[0].path) in before \
@@ -299,7 +311,7 @@ class World:
         call; SubMgr.tla: client_mutate leaves the truth unchanged)."""
         mgr, mid = self.mgrs[m]
         sid = self.sids[(m, sv)]
-        lst = getattr(mgr, GETTERS[kind])(sid)
+        lst = self._safe(getattr(mgr, GETTERS[kind]), sid)
         if how == "clear":
             del lst[:]
         elif how == "pop":
@@ -309,7 +321,7 @@ class World:
             other = [k for k in sorted(GETTERS) if k != kind and
                      k.split("_")[0] == kind.split("_")[0]]
             for k in other:
-                lst += getattr(mgr, GETTERS[k])(sid)
+                lst += self._safe(getattr(mgr, GETTERS[k]), sid)
         elif how == "dup":
             lst.extend(list(lst))
         self.record(dict(op="client_mutate", m=m, sv=sv, kind=kind, how=how),
@@ -325,7 +337,7 @@ class World:
         self.record(dict(op="iter_begin", m=m, sv=sv, kind=kind), "ok",
                     what="for inst in mgr(%r).%s():" % (mid, getter))
         visited = []
-        for inst in getattr(mgr, getter)(sid):
+        for inst in self._safe(getattr(mgr, getter), sid):
             if kind == "s":
                 visited.append(sub_name(inst))
                 self.remove("subscription", m, sv,
